@@ -186,6 +186,11 @@ func randomHist(rng *rand.Rand, a *alphabet, ln int) []Op {
 			h = append(h, Op{Op: "find", A: cur(), B: cur()})
 		case x < 17:
 			n := rng.Intn(6)
+			if rng.Intn(4) == 0 {
+				// a long batch over few keys: the same key is set, deleted and set again many times, and the batch is
+				// longer than the small-slice thresholds of sorting / grouping code
+				n = 13 + rng.Intn(40)
+			}
 			muts := [][]int{}
 			for j := 0; j < n; j++ {
 				if rng.Intn(3) == 0 {
